@@ -37,7 +37,7 @@ JHook(js) == {<<<<S(js[k][1]), S(js[k][2])>>, IF js[k][3][1] = "val" THEN Val(S(
 
 Kind(m) == CASE m \in {"parse_uri", "parse_curie", "parse"} -> "pair"
              [] m \in {"is_uri", "is_curie"} -> "bool"
-             [] m \in {"expand_all"} -> "list"
+             [] m \in {"expand_all", "expand_pair_all"} -> "list"
              [] OTHER -> "str"
 DecVal(m, v) == CASE Kind(m) = "pair" -> <<S(v[1]), S(v[2])>>
                   [] Kind(m) = "bool" -> v
@@ -81,9 +81,19 @@ LawBad(call) ==
                                            (m \o "#w") \in DOMAIN a /\ a[m \o "#w"] # a[m]}} \cup
   (IF a["compress_strict"] # a["compress@s"] THEN {"mon.C07.hook.compress_strict"} ELSE {}) \cup
   (IF a["expand_strict"] # a["expand@s"] THEN {"mon.C07.hook.expand_strict"} ELSE {})
+\* pair rows {ci, p, id, a}: expand_pair / expand_reference / expand_pair_all / format_curie never consult the hook -- they are
+\* Conv's operators on the converter built from the logged records, and C08's pair clause holds on the logged answers
+PairMethods == {"expand_pair", "expand_reference", "expand_pair_all", "format_curie"}
+PairBad(call, c) ==
+  LET AP(m, md, p, id) == IF KeyOf(m, md) \in DOMAIN call.a THEN Dec(m, call.a[KeyOf(m, md)]) ELSE <<"missing">> IN
+  {"ans.hook.pair." \o KeyOf(q[1], q[2]) : q \in {q \in PairMethods \X {Default, Strict, Pass, Both} :
+       /\ KeyOf(q[1], q[2]) \in DOMAIN call.a
+       /\ Dec(q[1], call.a[KeyOf(q[1], q[2])]) # AnsPair(c, q[1], q[2], S(call.p), S(call.id))}} \cup
+  (IF P_C08pair(c, S(call.p), S(call.id), AP) THEN {} ELSE {"mon.C08.hook.pair"})
 CallBad(call) ==
   LET c == ConvOf(call.ci)  h == JHook(call.h) IN
-  LawBad(call) \cup ConfBad(call, c, h) \cup MonBad(call, c, h) \cup Mon8Bad(call, c)
+  IF "p" \in DOMAIN call THEN PairBad(call, c)
+  ELSE LawBad(call) \cup ConfBad(call, c, h) \cup MonBad(call, c, h) \cup Mon8Bad(call, c)
 Groups == D.groups
 VARIABLES g, step
 fvars == <<g, step>>
